@@ -70,6 +70,86 @@ func TestC08(t *testing.T) {
 		}
 		synctest.Test(t, func(t *testing.T) { c08Run(t, run, sc) })
 	}
+	for k := 0; k < run.N(24, 600); k++ {
+		desc := map[string]any{"idx": k, "kind": "overlapping-drains-then-resume"}
+		if !run.Mine(n+k, desc) {
+			continue
+		}
+		synctest.Test(t, func(t *testing.T) { c08Overlap(t, run, k, run.Rand(n+k)) })
+	}
+}
+
+// c08Overlap: "resume restores normal forwarding" after stop/pause commands whose drains overlap. A
+// slow request is in flight; a first stop (or pause) waits for it, a second one is issued while the
+// first is still waiting; the request ends, both return; resume; the next requests must be
+// forwarded. No probe falls into the episode (interval 30s), so nothing else repairs the targets.
+func c08Overlap(t *testing.T, run *Run, idx int, rng *rand.Rand) {
+	w := NewWorld(t, WorldOpt{})
+	defer w.Close()
+	run.Eval()
+	const svc = "svc"
+	to := DefTO
+	to.HealthCheckConfig.Interval = 30 * time.Second
+	nt := 1 + rng.IntN(2)
+	var names []string
+	for i := 0; i < nt; i++ {
+		names = append(names, fmt.Sprintf("ov%d-t%d:80", idx%5, i))
+		w.AddTarget(names[i], nil)
+	}
+	if c := w.Deploy(svc, names, server.ServiceOptions{TLSRedirect: true}, to, 5*time.Second, time.Second); c.Err != "" {
+		run.Inconclusive("setup failed: %s", c.Err)
+		return
+	}
+	kinds := []string{pick(rng, []string{"pause", "stop"}), pick(rng, []string{"pause", "stop"})}
+	if rng.IntN(3) == 0 {
+		kinds = append(kinds, pick(rng, []string{"pause", "stop"}))
+	}
+	T := 2 * time.Second
+	lat := time.Duration(1500+rng.IntN(1500)) * time.Millisecond
+	for i := 0; i < nt+1; i++ { // one slow request per target at least
+		w.GoReq(T-100*time.Millisecond+time.Duration(i)*time.Millisecond+OffArrival, Req{ID: fmt.Sprintf("slow%d", i), Host: "c08.example", Path: "/slow", Lat: lat + OffTarget})
+	}
+	recs := make([]*CmdRec, len(kinds))
+	for i, k := range kinds {
+		i, k := i, k
+		w.At(T+time.Duration(i)*time.Duration(200+rng.IntN(300))*time.Millisecond, func() {
+			if k == "pause" {
+				recs[i] = w.Pause(svc, 10*time.Second, 100*time.Second)
+			} else {
+				recs[i] = w.Stop(svc, 10*time.Second, "overlap")
+			}
+		})
+	}
+	tResume := T + 5*time.Second
+	w.At(tResume, func() { w.Resume(svc) })
+	for i := 0; i < 4; i++ {
+		w.GoReq(tResume+time.Duration(i+1)*300*time.Millisecond+OffArrival, Req{ID: fmt.Sprintf("after%d", i), Host: "c08.example", Path: "/x"})
+	}
+	w.Wait()
+	fail := func(sig, format string, a ...any) {
+		run.Violate(sig, fmt.Sprintf(format, a...), map[string]any{"idx": idx, "commands": kinds, "slow_request": lat, "targets": nt}, func() []string { return w.Trace(200) })
+	}
+	overlapped := false
+	for i, r := range recs {
+		if r == nil || r.Err != "" || r.Panic != "" {
+			fail("command-failed", "command %d (%s) failed: %+v", i, kinds[i], r)
+			return
+		}
+		if i > 0 && r.Issue < recs[0].Ret {
+			overlapped = true
+		}
+	}
+	if !overlapped {
+		run.Count("drains_did_not_overlap", 1)
+		return
+	}
+	for _, r := range w.RespLog() {
+		if strings.HasPrefix(r.ID, "after") && (r.Status != 200 || r.Target == "") {
+			fail("not-forwarded-after-resume:overlapping-drains", "%v were issued while a slow request kept the first one's drain open; after resume at %v request %s got status=%d target=%q", kinds, tResume, r.ID, r.Status, r.Target)
+			return
+		}
+	}
+	run.Class(fmt.Sprintf("overlap|%s|nt%d", strings.Join(kinds, "+"), nt))
 }
 
 // c08CheckBody verifies that body is the 503 page (custom when the service has a 503 template,
